@@ -31,7 +31,8 @@ P = {
     }, {
         "name": "fsreal", "pkg": "./internal/rules", "test": "TestVerifC18Real",
         "overlay": dict(_COMMON, **{"internal/rules/zz_verif_c18_test.go": "c18/real_test.go",
-                                    "internal/rules/provider/filesystem/zz_verif_c18_export.go": "c18/fs_export.go"}),
+                                    "internal/rules/provider/filesystem/zz_verif_c18_export.go": "c18/fs_export.go",
+                                    "internal/rules/provider/kubernetes/zz_verif_c18_run.go": "c18/k8s_run.go"}),
         "eval_module": "Run.Eval_C18", "check_term": "check_fsr " + _B("F2"),
         "n_quick": 300, "n_thorough": 8000, "findings": {},
     }, {
@@ -56,11 +57,19 @@ P = {
         "n_quick": 400, "n_thorough": 12000, "findings": {5: "C18-F5", 6: "C18-F6"},
     }, {
         "name": "k8s", "pkg": "./internal/rules/provider/kubernetes", "test": "TestVerifC18K8s",
-        "overlay": dict(_COMMON, **{"internal/rules/provider/kubernetes/zz_verif_c18_test.go": "c18/k8s_test.go"}),
+        "overlay": dict(_COMMON, **{"internal/rules/provider/kubernetes/zz_verif_c18_test.go": "c18/k8s_test.go",
+                                    "internal/rules/provider/kubernetes/zz_verif_c18_run.go": "c18/k8s_run.go"}),
         "eval_module": "Run.Eval_C18", "check_term": "check_k8s " + _B("F7") + " " + _B("F8"),
         "n_quick": 300, "n_thorough": 6000, "findings": {},
+    }, {
+        "name": "k8sreal", "pkg": "./internal/rules", "test": "TestVerifC18K8sReal",
+        "overlay": dict(_COMMON, **{"internal/rules/zz_verif_c18_test.go": "c18/real_test.go",
+                                    "internal/rules/provider/filesystem/zz_verif_c18_export.go": "c18/fs_export.go",
+                                    "internal/rules/provider/kubernetes/zz_verif_c18_run.go": "c18/k8s_run.go"}),
+        "eval_module": "Run.Eval_C18", "check_term": "check_k8sr " + _B("F7") + " " + _B("F8"),
+        "n_quick": 200, "n_thorough": 4000, "findings": {},
     }],
-    "rule": "seven streams, every one through REAL code of /repo, corpus (witnesses of C18-F1/F2/F4/F5/F6/F7/F8 + corpus/C18/*.json) "
+    "rule": "eight streams, every one through REAL code of /repo, corpus (witnesses of C18-F1/F2/F4/F5/F6/F7/F8 + corpus/C18/*.json) "
             "first, then generated histories of 1-30 events over 1-3 sources: "
             "fs = file changes (valid/absent/empty/invalid, 5 empty and 11 invalid byte variants) x fsnotify events of every kind "
             "incl. combined op bits, orderly and out-of-order/repeated/stale notifications, initial loads, via "
@@ -76,7 +85,9 @@ P = {
             "injected at open/list/attrs/read x gcerrors codes; "
             "k8s = provider.Start with the real client-go reflector/informer over a fake API: watch events, class/generation "
             "changes, initial list, relists after 410 Gone (deleted / re-created / changed meanwhile), ~25% cases with "
-            "deliveries an API server would not make; handler panics observed. "
+            "deliveries an API server would not make; handler panics observed; "
+            "k8sreal = the same histories against the real rule-set processor, rule factory (stub catalogue) and repository, "
+            "reading what the repository holds per object after every event. "
             "12-20% of the contents are rejected by the processor (unsupported version / unknown mechanism); 6-30% of the "
             "fs/http/blob(single key)/k8s cases have a source whose deletion the processor refuses (correspondence only). "
             "Non-trivial = the history produced an accepted update or deletion, or kept a loaded version while seeing an "
@@ -91,8 +102,9 @@ P = {
                 "valid) is data of the case, realised by real bytes the real parser classifies in the run; the drivers map "
                 "(content type, bytes) and (injected failure, listing) to the model's classes",
                 "the rule-set processor is an oracle per content (accept/reject) and per source (deletion accepted/refused); the "
-                "stream fsreal checks that the real processor+factory+repository behave like that oracle and like the ideal "
-                "repository keyed by source id (for rule sets that do not compete for paths)",
+                "streams fsreal and k8sreal check that the real processor+factory+repository behave like that oracle and like the ideal "
+                "repository keyed by source id — including update/delete of something not loaded, which the Kubernetes provider "
+                "relies on — for rule sets that do not compete for paths",
                 "event delivery is modelled only as 'one notification per atomic change, in order' (fswatch) and 'polls one after "
                 "another' (httpsched); lost events, non-atomic writes, the window between initial load and watcher.Add, the "
                 "cloud-blob scheduler are not covered",
